@@ -102,21 +102,22 @@ def _on_vtalrm(signum: int, frame: typing.Any) -> None:
 CASE_CPU_S = 20.0
 
 
-def run_ops(resp: typing.Any, ops: list[list[typing.Any]], decode: bool, cap: int = 400000) -> tuple[list[tuple[str, typing.Any, bytes]], BaseException | None, str | None]:
+def run_ops(resp: typing.Any, ops: list[list[typing.Any]], decode: bool, cap: int = 400000, eof_at_first_empty: bool = False) -> tuple[list[tuple[str, typing.Any, bytes]], BaseException | None, str | None]:
     import signal
 
     signal.signal(signal.SIGVTALRM, _on_vtalrm)
     signal.setitimer(signal.ITIMER_VIRTUAL, CASE_CPU_S)
     try:
-        return _run_ops(resp, ops, decode, cap)
+        return _run_ops(resp, ops, decode, cap, eof_at_first_empty)
     except CaseCpuLimit:
         return [], None, f"read sequence did not terminate within {CASE_CPU_S}s of CPU (livelock)"
     finally:
         signal.setitimer(signal.ITIMER_VIRTUAL, 0)
 
 
-def _run_ops(resp: typing.Any, ops: list[list[typing.Any]], decode: bool, cap: int = 400000) -> tuple[list[tuple[str, typing.Any, bytes]], BaseException | None, str | None]:
-    """Executes the call sequence; the last op is repeated until two consecutive empty results.
+def _run_ops(resp: typing.Any, ops: list[list[typing.Any]], decode: bool, cap: int = 400000, eof_at_first_empty: bool = False) -> tuple[list[tuple[str, typing.Any, bytes]], BaseException | None, str | None]:
+    """Executes the call sequence; the last op is repeated until two consecutive empty results (or, with
+    eof_at_first_empty, until the first empty result: what a `while chunk := read(n)` caller takes for the end).
     Returns (pieces [(op, arg, data)], exception or None, protocol problem or None)."""
     pieces: list[tuple[str, typing.Any, bytes]] = []
     problem: str | None = None
@@ -179,7 +180,7 @@ def _run_ops(resp: typing.Any, ops: list[list[typing.Any]], decode: bool, cap: i
             last = ["readn", 64]
         empties = 0
         rounds = 0
-        while empties < 2:
+        while empties < (1 if eof_at_first_empty else 2):
             got = False
             for p in one(last):
                 pieces.append(p)
